@@ -75,7 +75,7 @@ def c18_joint(op, impl, model, stats):
 PROPS = {
     "C01": {
         "gens": ["C01"],
-        "rule": "op lines `rt <type> <value>` generated from one PRNG seed: exhaustive bool/u8/i8 (+u16/i16/char in thorough), per-width boundary sets, float classes, length/variant-index boundaries, the 29-kind corpus, random type trees (depth<=5) with well-typed values; every encode entry point (to_allocvec/stdvec/slice/vec/extend/io/size) and every decode entry point (from_bytes/take_from_bytes/from_io) is run per case; non-trivial = distinct op line whose encoding is >= 2 bytes",
+        "rule": "(every decode also runs with the OWNED hints deserialize_string / deserialize_byte_buf and must give the same result); op lines `rt <type> <value>` generated from one PRNG seed: exhaustive bool/u8/i8 (+u16/i16/char in thorough), per-width boundary sets, float classes, length/variant-index boundaries, the 29-kind corpus, random type trees (depth<=5) with well-typed values; every encode entry point (to_allocvec/stdvec/slice/vec/extend/io/size) and every decode entry point (from_bytes/take_from_bytes/from_io) is run per case; non-trivial = distinct op line whose encoding is >= 2 bytes",
         "nontrivial": lambda op, a: _enc_len(a) >= 2,
         "classify": lambda op, a: ("rt", _head(op), a.split(" ", 1)[0]),
         "diff_is_witness": False,
@@ -134,7 +134,7 @@ PROPS = {
     },
     "C08": {
         "gens": ["C08"],
-        "rule": "`acc <N> <type> <chunk>*`: streams of valid/corrupt/empty/garbage segments (every segment fits) x EVERY one of the 2^(len-1) chunkings of streams of length <= 8 (13 in thorough) x capacities {longest, longest+1, 64} x 6 target types, plus long random histories; both feed and feed_ref; every FeedResult, remainder and the buffered bytes after every call are compared; harness oracle: one result per zero byte = isolated decoding, conservation; non-trivial = distinct op line with >= 2 chunks",
+        "rule": "(empty chunks are inserted into some histories and handed to feed once); `acc <N> <type> <chunk>*`: streams of valid/corrupt/empty/garbage segments (every segment fits) x EVERY one of the 2^(len-1) chunkings of streams of length <= 8 (13 in thorough) x capacities {longest, longest+1, 64} x 6 target types, plus long random histories; both feed and feed_ref; every FeedResult, remainder and the buffered bytes after every call are compared; harness oracle: one result per zero byte = isolated decoding, conservation; non-trivial = distinct op line with >= 2 chunks",
         "nontrivial": lambda op, a: op.count(" x") >= 2,
         "diff_is_witness": False,
         "exhaustive": {"quick": ["all chunkings of 60 streams of length <= 8"], "thorough": ["all chunkings of 400 streams of length <= 13"]},
@@ -143,7 +143,7 @@ PROPS = {
     },
     "C09": {
         "gens": ["C09"],
-        "rule": "as C08 but with over-long segments, garbage and capacities equal to, one/two less than and one more than the longest segment, and capacities 1 and 2; harness oracle: no panic, loop terminates within 2*len+2 calls, buffer empty after a zero, over-long first segment reported OverFull, fitting frame after a zero delivered intact; non-trivial = distinct op line with >= 2 chunks",
+        "rule": "(empty chunks are inserted into some histories and handed to feed once); as C08 but with over-long segments, garbage and capacities equal to, one/two less than and one more than the longest segment, and capacities 1 and 2; harness oracle: no panic, loop terminates within 2*len+2 calls, buffer empty after a zero, over-long first segment reported OverFull, fitting frame after a zero delivered intact; non-trivial = distinct op line with >= 2 chunks",
         "nontrivial": lambda op, a: op.count(" x") >= 2,
         "diff_is_witness": False,
         "trusted_base": COMMON_TB + [SERDE_TB, "hook CobsAccumulator::verif_buffered exposes buf[..idx]"],
@@ -151,15 +151,17 @@ PROPS = {
     },
     "C10": {
         "gens": ["C10"],
-        "rule": "`crcraw` (crc crate vs the Rocksoft bitwise model, 10 catalogue algorithms, widths 8/12/16/32/64/82), `crcser` (to_slice/to_vec/to_allocvec agree; frame = plain ++ LE checksum), `crcde` (valid, extended, every truncation, random damage), `crcdex`: per sampled frame EVERY single-bit flip of the frame and burst patterns <= width at every bit offset of the payload in the algorithm's own bit order must not be accepted with unchanged decoded length; non-trivial = distinct op line",
+        "rule": "(for the two 32-bit algorithms the crate-root wrappers to_slice_crc32 / to_vec_crc32 / to_stdvec_crc32 / to_allocvec_crc32 / from_bytes_crc32 / take_from_bytes_crc32 are cross-checked against the flavour-level entry points in every crcser / crcde op; long str/bytes bodies 15..300 bytes with truncations and tail bit flips); `crcraw` (crc crate vs the Rocksoft bitwise model, 10 catalogue algorithms, widths 8/12/16/32/64/82), `crcser` (to_slice/to_vec/to_allocvec agree; frame = plain ++ LE checksum), `crcde` (valid, extended, every truncation, random damage), `crcdex`: per sampled frame EVERY single-bit flip of the frame and burst patterns <= width at every bit offset of the payload in the algorithm's own bit order must not be accepted with unchanged decoded length; non-trivial = distinct op line",
         "nontrivial": lambda op, a: True,
         "diff_is_witness": False,
         "trusted_base": COMMON_TB + [SERDE_TB, "the crc 3.4 crate is MODELLED as the Rocksoft parametric bitwise algorithm (pinned to crc-catalog check values by kernel-evaluated examples, compared with the crate each run)", "digest = exactly the bytes the inner flavour handed out (derived model of the de CrcModifier)"],
         "assumptions": ["bursts are contiguous in the algorithm's own bit order (LSB-first within bytes when refin) (DESIGN §8)"],
     },
     "C16": {
+        "derive_programs": {"quick": 30, "thorough": 200},
+        "derive_kind": "schema",
         "gens": ["C16"],
-        "rule": "`key <path> <schema>`: both hashers (const via hook verif_hash_static on a leaked &'static tree, owned, owned-of-From-conversion, Key::for_owned_schema_path) must agree and equal the model (= FNV-1a over the documented stream, theorem hash_eq_spec) on EVERY node kind x 5 path classes (recovers both tag tables through the API), the crate's stability vector, random trees; `keydiff`/`keypath`: single-node mutations (type name must not change the key; field/variant name, order, element kind, path must); non-trivial = distinct op line",
+        "rule": "`keyty <idx> <path> <schema>`: the public constructor Key::for_path::<T> for a registry of concrete types (std/heapless/uuid/chrono/nalgebra impls, hand-derived corpus, seed-generated derive programs), at run time and evaluated at compile time, against Key::for_owned_schema_path and the model's documented stream; Key::const_cmp / from_bytes / to_bytes / == consistency; `fnvraw <bytes>`: the public Fnv1a64Hasher (one / split updates, Default, digest / digest_bytes) against FNV-1a 64; paths of every length 0..70 and around 255 / 4096; `key <path> <schema>`: both hashers (const via hook verif_hash_static on a leaked &'static tree, owned, owned-of-From-conversion, Key::for_owned_schema_path) must agree and equal the model (= FNV-1a over the documented stream, theorem hash_eq_spec) on EVERY node kind x 5 path classes (recovers both tag tables through the API), the crate's stability vector, random trees; `keydiff`/`keypath`: single-node mutations (type name must not change the key; field/variant name, order, element kind, path must); non-trivial = distinct op line",
         "nontrivial": lambda op, a: True,
         "diff_is_witness": True,
         "exhaustive": {"quick": ["all 26 node kinds + 4 struct-data + 4 variant-data kinds x 5 paths"], "thorough": ["same"]},
@@ -177,7 +179,7 @@ PROPS = {
     },
     "C19": {
         "gens": ["C19"],
-        "rule": "`fmt <schema>` (to_pseudocode / Display, compared as bytes) and `discover <schema>` (all_used_types as a sorted list) on every node kind incl. usize/isize/schema, array-vs-tuple cases, random trees; oracle: no panic, set contains the schema itself, rendering mentions every declared name; non-trivial = distinct op line",
+        "rule": "(the `fmt` answer also carries `fmt::is_prim`, compared with the model's isPrim); `fmt <schema>` (to_pseudocode / Display, compared as bytes) and `discover <schema>` (all_used_types as a sorted list) on every node kind incl. usize/isize/schema, array-vs-tuple cases, random trees; oracle: no panic, set contains the schema itself, rendering mentions every declared name; non-trivial = distinct op line",
         "nontrivial": lambda op, a: True,
         "diff_is_witness": False,
         "trusted_base": COMMON_TB + ["HashSet is MODELLED as a duplicate-free list compared after sorting", "String formatting of usize MODELLED as decimal digits"],
